@@ -73,7 +73,7 @@ End P.
 Theorem main_multi_delete_refuted :
   exists s i, reach false true false no_eoc Z.succ rows12 s /\ stale_del s i /\ n_dels s i = 2%nat /\
     snd (step false true false no_eoc Z.succ i Commit s) = ROk /\
-    lookup 1 (com (sdb (fst (step false true false no_eoc Z.succ i Commit s)))) = Some {| rx := 5; rv := 2 |}.
+    lookup 1 (com (sdb (fst (step false true false no_eoc Z.succ i Commit s)))) = Some {| rx := (5, 0); rv := 2 |}.
 Proof.
   exists (st_del true false), 0%nat. split; [apply st_del_reach|]. split; [apply st_del_stale|].
   destruct multi_delete_unchecked as [A [B C]]. split; [exact C|]. split; [exact A|]. rewrite B. reflexivity.
